@@ -160,7 +160,28 @@ pub broadcast proof fn b_cidx_end(s: &str)
     axiom_cidx_boff(s@, 0);
 }
 pub broadcast group group_bounds { b_str_ends_boundary, b_cidx_end }
-pub broadcast group group_lem { b_asc_intro, b_slice_ok_ascii, b_slice_ascii, b_ascii_len, b_ascii_boff, b_ascii_cidx }
+/// index of the first occurrence (meaningful when there is one)
+pub open spec fn first_idx(s: Seq<char>, p: Seq<char>) -> int { choose|i: int| first_at(s, p, i) }
+pub proof fn lemma_first_unique(s: Seq<char>, p: Seq<char>, i: int)
+    requires first_at(s, p, i)
+    ensures first_idx(s, p) == i, contains_seq(s, p), is_sub_at(s, p, i)
+{
+    reveal(first_at); reveal(contains_seq);
+    let j = first_idx(s, p);
+    assert(first_at(s, p, j));
+    if i < j { assert(!is_sub_at(s, p, i)); }
+    if j < i { assert(!is_sub_at(s, p, j)); }
+}
+/// starts_with / ends_with a single char
+pub broadcast proof fn b_sub_at_char(s: Seq<char>, c: char, i: int)
+    ensures #[trigger] is_sub_at(s, seq![c], i) == (0 <= i < s.len() && s[i] == c)
+{
+    if 0 <= i < s.len() {
+        if s[i] == c { assert(s.subrange(i, i + 1) =~= seq![c]); }
+        else if is_sub_at(s, seq![c], i) { assert(s.subrange(i, i + 1)[0] == c); }
+    }
+}
+pub broadcast group group_lem { b_sub_at_char, b_asc_intro, b_slice_ok_ascii, b_slice_ascii, b_ascii_len, b_ascii_boff, b_ascii_cidx }
 
 // ------------------------------------------------------------------ digit strings
 pub proof fn lemma_digits_val_1(s: Seq<char>)
